@@ -17,6 +17,9 @@ def one_history(ctx, rng, plan, oidc, roi, observers, label, fixed_ops=None, rul
             pairs, rec = [], []
             for op in fixed_ops:
                 term_op = sess.coq_op(rs, op)
+                for ob in observers:
+                    if hasattr(ob, "before"):
+                        ob.before(rs, op)
                 out = rs.run(op)
                 pairs.append("(%s, %s)" % (term_op, sess.coq_out(op, out)))
                 rec.append([list(op), out])
@@ -26,6 +29,12 @@ def one_history(ctx, rng, plan, oidc, roi, observers, label, fixed_ops=None, rul
             def obs(rs_, op, out):
                 for ob in observers:
                     ob(rs_, op, out, None)
+
+            def obs_before(rs_, op):
+                for ob in observers:
+                    if hasattr(ob, "before"):
+                        ob.before(rs_, op)
+            obs.before = obs_before
             pairs, rec = sess.run_history(rs, plan, obs)
         for ob in observers:
             fin = getattr(ob, "finish", None)
@@ -43,7 +52,8 @@ def one_history(ctx, rng, plan, oidc, roi, observers, label, fixed_ops=None, rul
         rs.close()
 
 
-def run_histories(ctx, n_random, length, observers_factory, structured=(), seed_label="rnd"):
+def run_histories(ctx, n_random, length, observers_factory, structured=(), seed_label="rnd", focus_of=None):
+    """focus_of(i): the shape of the i-th random history ("mixed" or "multi", see sess.gen_history); default: all mixed"""
     rng = ctx.rng
     cases = []
     k = 0
@@ -53,7 +63,9 @@ def run_histories(ctx, n_random, length, observers_factory, structured=(), seed_
     for i in range(n_random):
         oidc = (i % 3 != 2)
         roi = (i % 5 == 4)
-        plan = sess.gen_history(rng, rng.randint(*length))
+        focus = focus_of(i) if focus_of else "mixed"
+        ctx.count("history-shape:" + focus)
+        plan = sess.gen_history(rng, rng.randint(*length), focus=focus)
         cases.append(one_history(ctx, rng, plan, oidc, roi, observers_factory(), "%s-%d" % (seed_label, i), rules=RULES[(i // 3) % 4],
                                  empty3=(i % 4 == 1), deny=(i % 4 == 3)))
     ctx.coq_check_cases(IMPORTS, "hist", "chk_hist", cases, shard=12, label="hist", diag="diag_hist")
